@@ -28,6 +28,7 @@ func init() {
 	ruleText["R11.7"] = "in genGlobalVarDecl the condition that makes a variable wait for a dependency d tests d's membership in a set filled from every element of the node list being ordered (for _, n := range nodes { set[n] = true })"
 	ruleText["R11.8"] = "every assignment to Interpreter.name lies under a condition comparing the assigned value, or the field itself, with the empty string"
 	ruleText["R11.9"] = "while compDefineX identifies a redeclared variable by 'lookup level == identifier level', neither compDefineX nor the defineXStmt case of gta sets symbol.global (literal key or assignment)"
+	ruleText["R11.10"] = "same analysis as C05/R05.6 (the method-resolution functions keep no state between calls)"
 	ruleText["R11.4"] = "each exported method of *Interpreter named Eval*/Compile*/Execute*/REPL reaches CompileAST, importSrc or Execute on the static call graph; gta, gtaRetry, cfg and genRun are called only from CompileAST, importSrc, Execute and the compile passes themselves"
 }
 
@@ -108,10 +109,14 @@ func runC11(c *Config, r *Report) {
 	c11R3(ic, r)
 	c11R4(ic, r)
 	closureFrameCloned(ic, r, "R11.5")
+	cloneCopiesData(ic, r, "R11.5")
 	c11R6(ic, r)
 	c11R7(ic, r, "R11.7")
 	c11R8(ic, r)
 	c11R9(ic, r)
+	// R11.10: a method declared by a later evaluation is seen by every type that gains it
+	// (same analysis as C05/R05.6: method resolution is recomputed, never remembered)
+	pureLookups(ic, r, "R11.10")
 }
 
 func c11R2(ic *IC, r *Report) {
